@@ -1130,6 +1130,10 @@ class Hist:
     def do_restart(self, a, op, env):
         saved = self._save_load(a.model, op, "1")  # a failing save is an ordinary failing operation
         try:
+            if op.get("twice"):
+                # what was saved is read once before (by someone else): reading must not use it up
+                self._load(saved, op)
+                self.stats["probe:restart_saved_state_read_twice"] += 1
             new = self._load(saved, op)
         except Exception as e:
             if "restart_equal" in self.oracles:
@@ -1457,6 +1461,7 @@ def make_swarm(rng, prop, run_cfg):
         sw["sbml_domain"] = True
     if prop == "C11":
         sw["restart_formats"] = [f for f in ["pickle", "dict", "json", "yaml"] if rng.random() < 0.7] or ["json"]
+        sw["none_values"] = rng.random() < 0.5
         if rng.random() < 0.3:
             # numbers that need 16-17 significant digits; only with the text formats (GLPK's own text format used by pickle/copy
             # carries 15 digits - the stated numeric assumption of the other workloads)
@@ -1472,7 +1477,7 @@ def make_swarm(rng, prop, run_cfg):
 
 # the forward name fits GLPK's 255 characters, the reverse name (id + "_reverse_" + 5 hex digits) does not
 LONG_ID = "L" * 245
-AWK_SUFFIX = [".1", "-x", ":y", "/z", "[c]", "(e)", "=q", "'p", "__x", "_DASH_", ".", "-"]
+AWK_SUFFIX = [".1", "-x", ":y", "/z", "[c]", "(e)", "=q", "'p", "__x", "_DASH_", ".", "-", "\u03b2", "\u00fc\u2192"]
 AWK_GENES = ["g.1", "2g", "g-3", "g:4", "g5.x-y", "gene/6"]
 
 
@@ -1554,6 +1559,9 @@ def gen_op(rng, H, sw):
                 continue
             seen.add(mr["id"])
             out.append([mr, rng.choice(COEFS) if rng.random() > 0.08 else rng.choice([0, 0.0])])
+            if sw.get("nonround") and rng.random() < 0.5:
+                # 16-17 significant digits, also in exponent notation
+                out[-1][1] = rng.choice([1 / 3, -2 / 7, 8.028549152229672e-13, -1.2345678901234567e-05, 1e7 / 3])
         return out
 
     if k == "set_bounds":
@@ -1634,6 +1642,9 @@ def gen_op(rng, H, sw):
             op.update(kind=kind, id=i, which=which, key=key, value=val)
         else:
             val = rng.choice(["v1", ["a", "b"]]) if which == "annotation" else rng.choice(["note", "other", ["n1"]])
+            if sw.get("none_values") and rng.random() < 0.4:
+                # "nothing" inside a container value
+                val = rng.choice([["a", None], [None]]) if which == "annotation" else rng.choice([["n1", None], {"inner": None, "n": 1}])
             op.update(kind=kind, id=i, which=which, key=rng.choice(["k1", "kegg", "sbo"]), value=val)
             if rng.random() < 0.35:
                 op.update(nested=True, value=rng.choice(["x1", "x2"]))
@@ -1825,6 +1836,8 @@ def gen_op(rng, H, sw):
                   pretty=rng.random() < 0.3, strpath=rng.random() < 0.7, Gw=list(rng.choice(G)), Gr=list(rng.choice(G)))
         if op["fmt"] == "sbml":
             op.update(f_replace=rng.choice(["default", "default", "none"]), sio=rng.random() < 0.3)
+        if rng.random() < 0.25:
+            op["twice"] = True
     elif k == "helper":
         op.update(name=rng.choice(["add_pfba", "add_moma", "fix_objective", "fix_objective", "add_lp_feasibility"]),
                   fraction=rng.choice([1.0, 1.0, 0.5]))
